@@ -164,6 +164,12 @@ def judge(case):
         ca, cb = a[1], b[1]
         if cb.type.startswith('VBRACE') or t2.startswith('VBRACE') or (ca.type.startswith('VBRACE')):
             continue
+        if t1.startswith('VBRACE') and not (t1 == 'VBRACE_OPEN' and rule == 'sp_after_sparen' and ca.type == 'SPAREN_CLOSE' and
+                                            cfgd.get('sp_skip_vbrace_tokens', 'false') != 'true'):
+            # a decision recorded behind a virtual brace is measured for one shape only: the brace-less body behind the ')' of
+            # if / for / while (the virtual brace stands for the body's start, the real token in front of it is the ')');
+            # elsewhere a zero-width token with gaps on both sides has no single gap to compare the option with
+            continue
         if a[0] - 1 >= len(out_lines):
             counts['unlocatable'] += 1
             continue
